@@ -84,6 +84,7 @@ func childMain() {
 	phase.Store("build")
 	p := buildPlatform(cs.Plat)
 	col := newCollector(cs.Full)
+	col.cdna3 = cs.Plat.Arch == "cdna3" || cs.Plat.GPUType == "mi300a"
 	ncu := 0
 	for _, comp := range p.Sim.Components() {
 		switch c := comp.(type) {
